@@ -542,6 +542,37 @@ func (c *Ctx) c06Index(f *ircFacts, fns []*load.FuncInfo, serverOnly func(*load.
 							}
 						}
 					}
+					// pinned by a dominating disjunction of equality tests with constants within the array
+					// (if x == 'a' || x == 'b' { arr[x] … })
+					if arrLen >= 0 && len(defsOfIn(info, fi.Body(), o)) <= 1 {
+						for _, cond := range g.CondsAt(v) {
+							if cond.Tag != nil {
+								continue
+							}
+							for _, cl := range c.clausesOf(info, fi.Node(), cond.Expr, cond.Val, 0) {
+								all := len(cl) > 0
+								for _, l := range cl {
+									be, ok := ast.Unparen(l.E).(*ast.BinaryExpr)
+									okLit := false
+									if ok && ((be.Op == token.EQL && l.Pos) || (be.Op == token.NEQ && !l.Pos)) {
+										for _, pr := range [][2]ast.Expr{{be.X, be.Y}, {be.Y, be.X}} {
+											if vid, ok := ast.Unparen(pr[0]).(*ast.Ident); ok && astx.Obj(info, vid) == o {
+												if k, ok := astx.ConstInt(info, pr[1]); ok && k >= 0 && k < arrLen {
+													okLit = true
+												}
+											}
+										}
+									}
+									if !okLit {
+										all = false
+									}
+								}
+								if all {
+									return true, "index pinned to constants within the array by a dominating disjunction of equality tests"
+								}
+							}
+						}
+					}
 					// switch-case pinning: the variable equals one of the case constants, all within the array
 					if arrLen >= 0 {
 						if consts := caseConstants(info, fi, node, o); len(consts) > 0 {
